@@ -673,6 +673,13 @@ pub fn build(prog: &Program) -> Result<Built, Infeasible> {
             words[top - 4] = truth[i + 1][2];
         }
     }
+    // a scanned frame also holds a stale word that points into its function's module but into no function (the
+    // padding behind the FUNC, whose only preceding PUBLIC sits at the FUNC's own start): not a return address
+    for i in 0..d {
+        if tech(i) == Tech::Scan && size[i] >= 6 {
+            words[widx(sp[i]) + 1] = faddr(i) + 0x800;
+        }
+    }
     let bytes = words_to_bytes(&words, p);
     let readable = |addr: u64| read_word(stack_base, &bytes, p, addr).is_some();
     // ---- symbol text
@@ -682,7 +689,7 @@ pub fn build(prog: &Program) -> Result<Built, Infeasible> {
         let k = i % nmods;
         let at = frel(i);
         let s = &mut sym[k];
-        *s += &format!("FUNC {:x} 100 0 f{}\n", at, i);
+        *s += &format!("FUNC {:x} 100 0 f{}\nPUBLIC {:x} 0 pub{}\n", at, i, at, i);
         let al = st[i].alias;
         let spn = a.cfi_name(a.sp(), al);
         match tech(i) {
